@@ -141,6 +141,13 @@ class Checker:
         self.unit = None
         self.text = text
         self.units = units
+        #: name -> (parameter type, result type) of the one-parameter functions declared in the text
+        self.func_sigs = {}
+        if text is not None:
+            import re as _re
+
+            for m in _re.finditer(r"\bfunction\s+(\w+)\s*\(\s*\w+\s*:\s*(\w+)\s*\)\s*return\s+(\w+)\s+is\b", text, flags=_re.I):
+                self.func_sigs[m.group(1).lower()] = (m.group(2).lower(), m.group(3).lower())
         self.stats = {"exprs": 0, "assigns": 0, "cases": 0, "procs": 0, "assocs": 0, "decls": 0, "idents": 0}
 
     # ---- reporting
@@ -351,13 +358,14 @@ class Checker:
             line = d.get("line")
             if k == "function":
                 self.declare(region, d["name"], ("func", d["name"]), line, "function")
-                if d["name"].lower() == "cohdl_bool_to_std_logic":
-                    # the fixed helper: `function cohdl_bool_to_std_logic(inp: boolean) return std_logic`
-                    for n in ("boolean", "std_logic"):
-                        self.note_predef_use(n, "type")
-                        b = region.lookup(n)
-                        if b and b[0][0] != "type":
-                            self.err("hides-predefined", f"type mark {n!r} in the header of cohdl_bool_to_std_logic denotes the user-declared {b[0][0]} {n!r}", line, f"{n} type-mark")
+                # one-parameter helper functions printed in the architecture (e.g. the boolean -> std_logic helper):
+                # the signature is read from the text, the name is the compiler's choice
+                sig = self.func_sigs.get(d["name"].lower())
+                for n in (sig or ()):
+                    self.note_predef_use(n, "type")
+                    b = region.lookup(n)
+                    if b and b[0][0] != "type":
+                        self.err("hides-predefined", f"type mark {n!r} in the header of function {d['name']} denotes the user-declared {b[0][0]} {n!r}", line, f"{n} type-mark")
             elif k == "enumtype":
                 self.declare(region, d["name"], ("type", ("enum", d["name"].lower(), tuple(l.lower() for l in d["lits"]))), line, "type")
                 seen = set()
@@ -591,22 +599,21 @@ class Checker:
                     return ERR
                 return self.index_ty(o.ty, args[0], region, line)
             if ent[0] == "func":
-                if low != "cohdl_bool_to_std_logic" or len(args) != 1:
-                    self.err("type", f"call of unknown user function {fname} / wrong arity", line, "user function")
+                sig = self.func_sigs.get(low)
+                simple = {"boolean": BOOL, "std_logic": SL, "std_ulogic": SL, "integer": INT(), "natural": INT()}
+                if sig is None or len(args) != 1 or sig[0] not in simple or sig[1] not in simple:
+                    self.err("type", f"call of user function {fname} with unknown signature / wrong arity", line, "user function")
                     return ERR
-                at = self.ty(args[0], region, BOOL, line)
-                if at[0] not in ("bool", "err"):
-                    self.err("type", f"cohdl_bool_to_std_logic applied to {show(at)}", line, f"cohdl_bool_to_std_logic({at[0]})")
-                return SL
+                at = self.ty(args[0], region, simple[sig[0]], line)
+                if at[0] not in (simple[sig[0]][0], "err"):
+                    self.err("type", f"helper function {fname}({sig[0]}) applied to {show(at)}", line, f"helper({at[0]})")
+                return simple[sig[1]]
             if low in PREDEFINED:
                 self.note_predef_use(low, "function" if low in PREDEF_FUNCS else "type")
                 self.err("hides-predefined", f"{fname}(...) is meant as the predefined {fname} but the name denotes the user-declared {ent[0]}", line, f"{low} call")
                 return ERR
             self.err("type", f"{ent[0]} {fname!r} called / indexed", line, f"{ent[0]} called")
             return ERR
-        if low == "cohdl_bool_to_std_logic":
-            self.err("undeclared", "cohdl_bool_to_std_logic is called but not declared in this architecture", line, "cohdl_bool_to_std_logic undeclared")
-            return SL
         self.note_predef_use(low, "function" if low in PREDEF_FUNCS else "type")
         if low in ("rising_edge", "falling_edge"):
             if len(args) != 1:
